@@ -299,6 +299,18 @@ class C19(Monitor):
             return []
         if got != want:
             return [("parameter-items-differ", "parser %r, reference reading %r" % (got, want))]
+        # the dictionary view must hold the last value given for each letter, in order of first appearance
+        try:
+            d = p.parameterDict
+        except Exception as exc:  # noqa: B902
+            return [("parameterDict-raised", repr(exc))]
+        stats["parameterdict_evaluations"] += 1
+        ref = collections.OrderedDict()
+        for l, val in want:
+            ref[l] = val
+        mine = [(k, val) for k, val in (d or {}).items() if k != ""]
+        if mine != list(ref.items()):
+            return [("parameter-dict-differs", "parameterDict %r, last value per letter %r" % (mine, list(ref.items())))]
         return []
 
     @staticmethod
